@@ -71,6 +71,9 @@ func scenario(p params, bounds []int) *vexp.Scenario {
 					s.Launch = func(a *vsys.Act, ctx vivid.ActorContext) {
 						ctx.EventStream().Subscribe(ctx, tick{})
 						ctx.Scheduler().Loop(ctx.Ref(), time.Second, vsys.Msg{ID: "loop"}, vivid.WithSchedulerReference("L"))
+						// ... and a Once job that has already fired when the actor dies (its key sorts before the Loop's)
+						ctx.Scheduler().Once(ctx.Ref(), time.Millisecond, vsys.Msg{ID: "once"}, vivid.WithSchedulerReference("A"))
+						ctx.Scheduler().Loop(ctx.Ref(), time.Second, vsys.Msg{ID: "loop"}, vivid.WithSchedulerReference("Z"))
 					}
 				}
 				if p.respawn == "onkill-spawn" && n == p.target {
@@ -105,6 +108,12 @@ func scenario(p params, bounds []int) *vexp.Scenario {
 			if _, err := w.SpawnRoot(scripts["/x"]); err != nil {
 				x.Fail("harness", "spawn: %v", err)
 				return
+			}
+			if p.owns {
+				// let the Once jobs fire (10 ms of virtual time; the Loops have a period of 1 s)
+				vrt.SetHorizon(vrt.Now() + int64(10*time.Millisecond))
+				vrt.Quiesce()
+				vrt.SetHorizon(0)
 			}
 			tref := w.Ref(p.target)
 			var watcherPaths []string
